@@ -39,7 +39,7 @@ use std::time::{Duration, Instant};
 pub const META: PropMeta = PropMeta {
     id: "C12",
     level: "exploration",
-    rule: "case = configuration {timeout in Zero|Ms(1..40)|Long(400ms)|None} x {0..4 timers: expired, +1..40ms, equal to the timeout, later than the timeout, far (1h), Duration::MAX, inserted-then-removed (before or after its deadline passed), inserted-then-disabled, armed-then-re-armed by set_deadline+update (old/new deadline past or future), overdue timer whose callback re-arms it with ToDuration(period)} x {0..5 idle sources: ping live/dead, channel live/dead, executor live/scheduler dropped, stream ended/pending, Generic EMPTY/READ quiet, disabled source with pending ping, lifecycle source whose before_sleep takes 80 ms (with a timer 120 ms out); live ones optionally used once during warm-up} x optional helper thread (ping|channel send|LoopSignal::wakeup|no-op signal to the loop thread, after 5..25ms); one measured dispatch per case after warm-up, optionally followed by a second measured dispatch (0..40 ms) judged against the timers still armed then (lower bound exact, limiting timer fired, no timer fires twice, upper bound with slack). non-trivial: a follow-up dispatch had to wait although a former / re-armed / already fired timer existed, or (timeout is Some and >= 1 live timer, or a dead-peer source is present) and the dispatch had to wait (L > 0, L = min(timeout, earliest deadline - t_before)). distinct: fingerprint of the normalised configuration",
+    rule: "case = configuration {timeout in Zero|Ms(1..40)|Long(400ms)|None} x {0..4 timers: expired, +1..40ms, equal to the timeout, later than the timeout, far (1h), Duration::MAX, inserted-then-removed (before or after its deadline passed), inserted-then-disabled, armed-then-re-armed by set_deadline+update (old/new deadline past or future; from no deadline; via Duration::MAX), deadline field changed WITHOUT update (old arming stays in force), late timers inserted between the measured dispatches, self-removing periodic timer, overdue timer whose callback re-arms it with ToDuration(period)} x {0..5 idle sources: ping live/dead, channel live/dead, executor live/scheduler dropped, stream ended/pending, Generic EMPTY/READ quiet, disabled source with pending ping, lifecycle source whose before_sleep takes 80 ms (with a timer 120 ms out), book-style composites of two ping/channel/executor children; live ones optionally used once during warm-up} x optional helper thread (ping|channel send|LoopSignal::wakeup|no-op signal to the loop thread, after 5..25ms); one measured dispatch per case after warm-up, optionally followed by a second measured dispatch (0..40 ms) judged against the timers still armed then (lower bound exact, limiting timer fired, no timer fires twice, upper bound with slack). non-trivial: a follow-up dispatch had to wait although a former / re-armed / already fired timer existed, or (timeout is Some and >= 1 live timer, or a dead-peer source is present) and the dispatch had to wait (L > 0, L = min(timeout, earliest deadline - t_before)). distinct: fingerprint of the normalised configuration",
     assumptions: &[
         "std::time::Instant and the timerfd used by polling both read CLOCK_MONOTONIC; hrtimers never expire early",
         "upper bounds are scheduling-latency bounds: 60 ms slack, only asserted when the same configuration misses 3 times in a row",
